@@ -1,6 +1,6 @@
-(* Engine/AbsResult.v — the verdict of the abstract interpreter on the regenerated layouts, and what follows from it *)
+(* Engine/AbsResult.v — C03: the specification's language is included in what the regenerated layouts accept (the verdict of the abstract interpreter, strict mode, and what follows) *)
 From Coq Require Import Lia Bool Strings.String.
-From SwiftMT Require Import Base.Bytes Engine.Layout Engine.Tokens Engine.Regex Engine.Abs Engine.AbsSound Engine.Total Engine.TotalInstance Engine.Facts Engine.Instance Engine.AbsInstance Family.Model Family.Instance.
+From SwiftMT Require Import Base.Bytes Engine.Layout Engine.Tokens Engine.Regex Engine.Abs Engine.AbsSound Engine.Total Engine.TotalInstance Engine.Facts Engine.Instance Engine.AbsInstance Engine.AbsCommon Family.Model Family.Instance.
 From SwiftMT Require Import gen.Families gen.Specs.
 Local Open Scope string_scope.
 Local Open Scope list_scope.
@@ -14,21 +14,6 @@ Lemma gen_inclusion_forall : forallb (fun p => mem (fst p) inclusion_open || che
 Proof. vm_cast_no_check (eq_refl true). Qed.
 Lemma gen_restricted_forall : forallb (fun p => check_restricted (fst p)) specs_restricted = true.
 Proof. vm_cast_no_check (eq_refl true). Qed.
-Lemma gen_deletions_forall :
-  forallb (fun p => forallb (fun d => pair_mem (fst p, fst d) deletion_open || check_deletion (fst p) (snd d)) (snd p)) spec_deletions = true.
-Proof. vm_cast_no_check (eq_refl true). Qed.
-
-(* the hypothesis on a token: every parser the layout may apply to it answers as [fp] says *)
-Definition good_token (fparse : bytes -> option bytes -> bytes -> bool) (L : list stmt) (k : tok) : Prop :=
-  good fparse fp (uses L) k.
-
-Lemma layout_progress : forall T L, lookup T all_layouts = Some L -> loops_ok L = true /\ In (T, L) all_layouts.
-Proof.
-  intros T L EL. assert (HL : In (T, L) all_layouts) by (apply lookup_some_in; exact EL). split; [|exact HL].
-  pose proof gen_layouts_progress as PR. unfold layouts_progress in PR. rewrite forallb_forall in PR.
-  exact (PR (T, L) HL).
-Qed.
-
 Lemma alts_accept : forall T L alts, lookup T all_layouts = Some L -> check_alts T alts = true ->
   forall fparse toks, spec_lang alts (map fst toks) -> Forall (good_token fparse L) toks ->
   forall f, lsize L + List.length toks + 1 <= f ->
@@ -66,33 +51,6 @@ Proof.
   specialize (OK (T, alts) HinS). cbn [fst] in OK. unfold check_restricted in OK. rewrite HR in OK. exact OK.
 Qed.
 
-(* ---- C09: a text whose tags are a word of the specification with one mandatory element missing is rejected *)
-Theorem deletion_rejected : forall T L ds what D, lookup T all_layouts = Some L -> lookup T spec_deletions = Some ds ->
-  In (what, D) ds -> pair_mem (T, what) deletion_open = false ->
-  forall fparse toks, matches D (map fst toks) -> Forall (good_token fparse L) toks ->
-  forall f, lsize L + List.length toks + 1 <= f ->
-  exists e, trun fparse f L toks = Reject e /\ reject_ok fparse toks e.
-Proof.
-  intros T L ds what D EL HD Hin Hopen fparse toks Hm Hg f Hf.
-  pose proof gen_deletions_forall as OK. rewrite forallb_forall in OK.
-  assert (HinS : In (T, ds) spec_deletions) by (apply lookup_some_in; exact HD).
-  specialize (OK (T, ds) HinS). cbn [fst snd] in OK. rewrite forallb_forall in OK. specialize (OK (what, D) Hin).
-  cbn [fst snd] in OK. rewrite Hopen in OK. cbn [orb] in OK.
-  unfold check_deletion in OK. rewrite EL in OK.
-  destruct (layout_progress T L EL) as [PL HL].
-  destruct (excludes_rejects fparse fp (uses L) 400 L D OK PL toks Hm Hg f Hf) as [e He].
-  exists e. split; [exact He|].
-  pose proof (layout_wf T L HL) as W. unfold wf_layout in W. apply andb_true_iff in W.
-  exact (reject_sound fparse L f toks e (proj1 W) He).
-Qed.
-
-(* the deletion languages that were left out are left out for a reason: each contains a word of the specification *)
-Theorem left_out_deletions_are_ambiguous :
-  forallb (fun p => forallb (fun d => let '(D, w) := snd d in
-                                      matchb D w && match lookup (fst p) specs with Some alts => existsb (fun R => matchb R w) alts | None => false end)
-                            (snd p)) spec_deletions_ambiguous = true.
-Proof. vm_cast_no_check (eq_refl true). Qed.
-
 (* MT204: the layout reads 19 before 20, the specification says 20 then 19: EVERY word of the specification is rejected *)
 Lemma gen_mt204_excluded :
   match lookup (bs "MT204") specs, lookup (bs "MT204") all_layouts with
@@ -111,13 +69,6 @@ Proof.
   exact (excludes_rejects fparse fp (uses L) 400 L R OK PL toks Hm Hg f Hf).
 Qed.
 
-(* the premises are satisfiable: a parser oracle that answers as [fp] says makes every token good, and a concrete
-   MT202 cover text is a word of the specification *)
-Definition model_fparse (ty : bytes) (l : option bytes) (x : bytes) : bool :=
-  match fp ty l [] with Some b => b | None => false end.
-Lemma model_good : forall L k, good_token model_fparse L k.
-Proof. intros L k ty l b _ H. unfold model_fparse. change (fp ty l []) with (fp ty l (fst k)). rewrite H. reflexivity. Qed.
-
 Example spec_inclusion_is_not_vacuous :
   let toks := map (fun t => (bs t, bs "X")) ["20"; "21"; "13C"; "13C"; "32A"; "52A"; "58D"; "72"; "50F"; "59"; "33B"] in
   match lookup (bs "MT202") specs, lookup (bs "MT202") all_layouts with
@@ -126,10 +77,3 @@ Example spec_inclusion_is_not_vacuous :
   end.
 Proof. vm_compute. split; [reflexivity | eexists; reflexivity]. Qed.
 
-Example deletion_is_not_vacuous :
-  let toks := map (fun t => (bs t, bs "X")) ["20"; "21"; "58D"] in      (* an MT202 without its mandatory 32A *)
-  match lookup (bs "MT202") spec_deletions, lookup (bs "MT202") all_layouts with
-  | Some ds, Some L => existsb (fun d => matchb (snd d) (map fst toks)) ds = true /\ (exists e, trun model_fparse 400 L toks = Reject e)
-  | _, _ => False
-  end.
-Proof. vm_compute. split; [reflexivity | eexists; reflexivity]. Qed.
